@@ -25,7 +25,24 @@ func Malform(r *core.Rng, d *Doc) bool {
 	it := &d.Items[ii]
 	it.Damaged = true
 	if it.Kind == "race" {
-		switch r.Intn(5) {
+		switch r.Intn(8) {
+		case 5:
+			// a number the header's pattern accepts and no integer can hold: the
+			// report is rejected at its first operation, after its two opening lines
+			// were withheld
+			it.Ops[0].Header = fmt.Sprintf("Read at 0x1%016x by goroutine %d:", r.Intn(1<<30), it.Ops[0].ID)
+		case 6:
+			it.Ops[0].Header = fmt.Sprintf("Write at 0x00c000012345 by goroutine 9%019d:", r.Intn(1<<30))
+		case 7:
+			if len(it.Ops) > 1 {
+				if r.Chance(0.5) {
+					it.Ops[1].Header = fmt.Sprintf("Previous write at 0x1%016x by goroutine %d:", r.Intn(1<<30), it.Ops[1].ID)
+				} else {
+					it.Ops[1].Header = fmt.Sprintf("Previous read at 0x00c000012345 by goroutine 9%019d:", r.Intn(1<<30))
+				}
+			} else {
+				it.Creates[0].Header = fmt.Sprintf("Goroutine 9%019d (running) created at:", r.Intn(1<<30))
+			}
 		case 4:
 			it.NoFooter = true
 			// What follows a footer-less report must not be something the grammar
@@ -53,6 +70,11 @@ func Malform(r *core.Rng, d *Doc) bool {
 	k := r.Intn(8)
 	if len(g.Frames) == 0 && k < 5 {
 		k = 5 + r.Intn(3)
+	}
+	if it.Indent != "" && len(g.Frames) > 0 && r.Chance(0.3) {
+		// a line of an indented dump that lacks the indentation
+		g.Frames[r.Intn(len(g.Frames))].NoIndent = true
+		return true
 	}
 	switch k {
 	case 0:
